@@ -759,14 +759,14 @@ class Gen:
             parts = tx.split("\n")
             for pi, part in enumerate(parts):
                 if pi > 0:
-                    self.out.emit(cur_text, cur_origin, tags, fnname)
+                    self.out.emit(cur_text, cur_origin, self._clause_tags(cur_text, tags) if (cur_origin and cur_origin[0] == "tpl") else tags, fnname)
                     cur_text, cur_origin = "", None
                     if origin and origin[0] in ("repo", "tpl") and origin[0] == "repo":
                         origin = ("repo", origin[1], origin[2] + 1)
                 if part.strip() and cur_origin is None:
                     cur_origin = origin
                 cur_text += part
-        self.out.emit(cur_text, cur_origin, tags, fnname)
+        self.out.emit(cur_text, cur_origin, self._clause_tags(cur_text, tags) if (cur_origin and cur_origin[0] == "tpl") else tags, fnname)
 
 
 GHOST_PREFIX = re.compile(r"^(proof\s*\{|let ghost |let tracked |assert\(|assert |broadcast use |reveal\(|$)")
